@@ -34,6 +34,7 @@ func init() {
 func gcDrive(c *Ctx, scs []gcScenario) error {
 	// internal-trace conformance of the implementation-shaped model (GoChannelImplTrace.tla)
 	gcConformance(c, c.Pick(12, 240))
+	gcReplayAll(c) // ... and in the other direction: TLC-generated gate schedules replayed against the real code
 	T := c.Trace("GoChannelTrace")
 	runs := make([]*tr.Run, len(scs))
 	for i, sc := range scs {
